@@ -92,6 +92,14 @@ def gen_cases(tier, seed):
             # very small time steps (1e-12 .. 1e-8): a step is a step however small
             N = int(rng.integers(3, 13)); k = int(rng.integers(1, N + 2))
             cases.append(_tiny(_case(rng, N, k, "fixed", bool(j % 2), int([0, 2, 3][j % 3]), False), float([1e-9, 1e-12, 3e-9, 1e-8, 2e-10, 1e-11][j])))
+        for j in range(4):
+            # screening + adaptive: the step is refused in a LATER screening iteration of some steps (the time step used, returned,
+            # recorded and added to the clock is the reduced one)
+            N = int(rng.integers(6, 13)); k = int([1, 3, N + 1, 2][j])
+            c_ = _case(rng, N, k, "adaptive", bool(j % 2), int([2, 0, 3, 2][j]), True)
+            c_["options"].update(dt_init=0.02, dt_max=0.1, solve_time=0.06 * N, max_iterations_per_step=2000)
+            c_["refuse_in_later_screening_iteration"] = [1, 2, 4, 5]
+            cases.append(c_)
         for j in range(6):
             # the live monitor is requested with a refresh interval (wall-clock seconds) that has always elapsed: which frames
             # exist is still decided by the save interval alone (the plotting process itself is not started by the harness)
@@ -100,6 +108,12 @@ def gen_cases(tier, seed):
             c_["options"].update(output="file", monitor=True, monitor_update_interval=1e-9)
             cases.append(c_)
     else:
+        for j in range(30):
+            N = int(rng.integers(6, 13)); k = int([1, 3, N + 1, 2][j % 4])
+            c_ = _case(rng, N, k, "adaptive", bool(j % 2), int([2, 0, 3, 2][j % 4]), True)
+            c_["options"].update(dt_init=0.02, dt_max=0.1, solve_time=0.06 * N, max_iterations_per_step=2000)
+            c_["refuse_in_later_screening_iteration"] = sorted(set(int(x) for x in rng.integers(0, N, size=4)))
+            cases.append(c_)
         for j in range(40):
             N = int(rng.integers(4, 13)); k = int([N + 1, 3, 5, 1][j % 4])
             c_ = _case(rng, N, k, ["fixed", "adaptive"][j % 2], bool(j % 4 == 3), int([0, 2, 3][j % 3]), False)
@@ -120,9 +134,30 @@ def gen_cases(tier, seed):
     return cases
 
 
+class _Refuser:
+    """Injects refusals of solve_for_psi_squared in a LATER screening iteration of chosen steps (in a real run the link variables
+    change with the induced potential between iterations, so a step accepted in iteration 0 can be refused in iteration 1)."""
+
+    def __init__(self, steps):
+        self.steps = set(int(x) for x in steps)
+        self.done = set()
+        self.injected = 0
+
+    def maybe_fail(self, point, **info):
+        return None
+
+    def refuse_spsq(self, stage, step, n, screening_iteration):
+        if stage == "Simulating" and step in self.steps and screening_iteration >= 1 and (stage, step) not in self.done:
+            self.done.add((stage, step))
+            self.injected += 1
+            return True
+        return False
+
+
 def run_case(spec):
     tm = simmon.TraceMonitor()
     workdir = None
+    refuser = _Refuser(spec["refuse_in_later_screening_iteration"]) if spec.get("refuse_in_later_screening_iteration") else None
     if spec.get("occupied"):
         import copy
         import tempfile
@@ -136,10 +171,12 @@ def run_case(spec):
         r0 = sim.run_sim(other, [], workdir=workdir, keep_dir=True)
         if r0.refused:
             return {"violations": [], "counters": {"refused_mesh": 1}, "classes": ["refused"], "nontrivial": False}
-    rr = sim.run_sim(spec, [tm, simmon.Sanitizer()], workdir=workdir)
+    rr = sim.run_sim(spec, [tm, simmon.Sanitizer()], workdir=workdir, failpoints=refuser)
     if rr.refused:
         return {"violations": [], "counters": {"refused_mesh": 1}, "classes": ["refused"], "nontrivial": False}
     V, C = [], {}
+    if refuser is not None:
+        C["refusals_injected_in_later_screening_iterations"] = refuser.injected
     o = rr.options
     exc = rr.exception
     path = None
